@@ -621,7 +621,11 @@ func (x *Exec) boundsCheck(f *Frame, idx, n Term, pos token.Pos) {
 
 func (x *Exec) execIndexAddr(f *Frame, i *ssa.IndexAddr) {
 	idx := x.term(f, i.Index)
-	x.cands.addIdx(idx)
+	if _, isSl := i.X.Type().Underlying().(*types.Slice); isSl {
+		x.cands.addIdxFor(idx, x.val(f, i.X).T)
+	} else {
+		x.cands.addIdx(idx)
+	}
 	switch u := i.X.Type().Underlying().(type) {
 	case *types.Pointer: // pointer to array
 		at := u.Elem().Underlying().(*types.Array)
@@ -991,7 +995,7 @@ func (x *Exec) rangeExhausted(f *Frame, rng *ssa.Range, ok, mv, vis Term, ks Sor
 	q := &Expr{Kind: EQuant, Name: "forall", Vars: []QVar{{Name: "k$", Type: "sort:" + string(ks)}},
 		Args: []*Expr{{Kind: ECall, Name: "$exhausted", Args: []*Expr{{Kind: EIdent, Name: "k$"}}}}}
 	env := x.newEnv(map[string]TV{"$ok": {ok, nil}, "$has": {MapHas(mv), nil}, "$vis": {vis, nil}}, x.cur.clone(), x.entry)
-	x.qhyps = append(x.qhyps, qhyp{mark: x.b.Mark(), guard: x.cur.reach, expr: q, env: env, src: "map range exhausted"})
+	x.addQhyp(x.cur, qhyp{mark: x.b.Mark(), guard: x.cur.reach, expr: q, env: env, src: "map range exhausted"})
 }
 
 // ---------------------------------------------------------------------------
